@@ -120,7 +120,7 @@ func (s aStmt) isFuncDecl() bool {
 
 func (s aStmt) isDecl() bool {
 	switch s.tok {
-	case token.CONST, token.TYPE, token.VAR:
+	case token.CONST, token.TYPE, token.VAR, token.IMPORT:
 		return true
 	case token.FUNC:
 		return isFuncDecl(s.words[s.at+1:])
